@@ -183,9 +183,43 @@ func (*c08) NonTrivial(ci, oi any) bool {
 
 // ---- printing cases as Gallina terms ---------------------------------------------
 
-func c08CoqHook(h c08Hook) string {
-	return fmt.Sprintf("(mkHook %s %s %s %s %s %s %s %s)", c08Str(h.Name), c08Str(h.Kind), c08Str(h.Path),
-		c08Str(string(h.Manifest)), c08StrList(h.Events), hx.CoqZ(int64(h.Weight)), c08StrList(h.Delete), c08StrList(h.OutLog))
+// c08DocIndex: position of a document text in the (sorted, duplicate-free) head table
+func c08DocIndex(heads []c08Head, doc []byte) int {
+	for i, h := range heads {
+		if string(h.Doc) == string(doc) {
+			return i
+		}
+	}
+	return 999999 // not a document Helm was given: no position matches
+}
+
+func c08CoqHook(heads []c08Head, h c08Hook) string {
+	return fmt.Sprintf("(mkOHook %s %s %s %d %s %s %s %s)", c08Str(h.Name), c08Str(h.Kind), c08Str(h.Path),
+		c08DocIndex(heads, h.Manifest), c08StrList(h.Events), hx.CoqZ(int64(h.Weight)), c08StrList(h.Delete), c08StrList(h.OutLog))
+}
+
+// c08Pieces: Release.Manifest as (path, document) pieces when it is, byte for byte, the
+// concatenation of "---\n# Source: <path>\n<document>\n" over them
+func c08Pieces(heads []c08Head, manifest []byte) (string, bool) {
+	var it []string
+	var b strings.Builder
+	for _, d := range c08SplitOrdered(string(manifest)) {
+		s := string(d)
+		if !strings.HasPrefix(s, "# Source: ") {
+			return "", false
+		}
+		p, rest, _ := strings.Cut(strings.TrimPrefix(s, "# Source: "), "\n")
+		idx := c08DocIndex(heads, []byte(rest))
+		if idx == 999999 {
+			return "", false
+		}
+		fmt.Fprintf(&b, "---\n# Source: %s\n%s\n", p, rest)
+		it = append(it, hx.CoqPair(c08Str(p), fmt.Sprint(idx)))
+	}
+	if b.String() != string(manifest) {
+		return "", false
+	}
+	return hx.CoqList(it), true
 }
 
 func c08CoqHeads(hs []c08Head) string {
@@ -210,7 +244,46 @@ func c08CoqHeads(hs []c08Head) string {
 	return hx.CoqList(it)
 }
 
-func c08CoqFiles(fs []c08File, prefix string) string {
+// c08FilePieces prints a file's text as literal pieces and references into the head table,
+// when the file was assembled from generated documents and the concatenation reproduces it
+// byte for byte; otherwise as one literal.
+func c08FilePieces(heads []c08Head, f c08File) string {
+	lit := "[PS " + c08Str(string(f.Content)) + "]"
+	if len(f.Docs) == 0 {
+		return lit
+	}
+	var it []string
+	var rebuilt strings.Builder
+	rest := string(f.Content)
+	for _, d := range f.Docs {
+		t := strings.TrimSpace(string(d.Text))
+		idx := c08DocIndex(heads, []byte(t))
+		if t == "" || idx == 999999 {
+			continue
+		}
+		k := strings.Index(rest, t)
+		if k < 0 {
+			return lit
+		}
+		if k > 0 {
+			it = append(it, "PS "+c08Str(rest[:k]))
+			rebuilt.WriteString(rest[:k])
+		}
+		it = append(it, fmt.Sprintf("PD %d", idx))
+		rebuilt.WriteString(t)
+		rest = rest[k+len(t):]
+	}
+	if rest != "" {
+		it = append(it, "PS "+c08Str(rest))
+		rebuilt.WriteString(rest)
+	}
+	if rebuilt.String() != string(f.Content) {
+		return lit
+	}
+	return hx.CoqList(it)
+}
+
+func c08CoqFiles(heads []c08Head, fs []c08File, prefix string) string {
 	// a Go map: printed in key order (the model sorts the keys itself)
 	idx := make([]int, len(fs))
 	for i := range idx {
@@ -219,7 +292,7 @@ func c08CoqFiles(fs []c08File, prefix string) string {
 	sort.Slice(idx, func(a, b int) bool { return fs[idx[a]].Path < fs[idx[b]].Path })
 	it := make([]string, 0, len(fs))
 	for _, i := range idx {
-		it = append(it, hx.CoqPair(c08Str(prefix+fs[i].Path), c08Str(string(fs[i].Content))))
+		it = append(it, hx.CoqPair(c08Str(prefix+fs[i].Path), c08FilePieces(heads, fs[i])))
 	}
 	return hx.CoqList(it)
 }
@@ -229,7 +302,7 @@ func (*c08) CoqCase(ci, oi any) string {
 	hooks := func() string {
 		it := make([]string, len(obs.Hooks))
 		for i, h := range obs.Hooks {
-			it[i] = c08CoqHook(h)
+			it[i] = c08CoqHook(obs.Heads, h)
 		}
 		return hx.CoqList(it)
 	}
@@ -248,15 +321,19 @@ func (*c08) CoqCase(ci, oi any) string {
 		if obs.Err == "" && obs.Panic == "" {
 			gs := make([]string, len(obs.Generic))
 			for i, g := range obs.Generic {
-				gs[i] = "(" + c08Str(g.Name) + ", " + c08Str(string(g.Content)) + ", " + c08Str(g.Kind) + ")"
+				gs[i] = "(" + c08Str(g.Name) + ", " + fmt.Sprint(c08DocIndex(obs.Heads, g.Content)) + ", " + c08Str(g.Kind) + ")"
 			}
 			o = fmt.Sprintf("(OSortOk %s %s)", hooks(), hx.CoqList(gs))
 		}
-		return fmt.Sprintf("CSort %s %s %s %s", hx.CoqBool(c.Uninstall), c08CoqFiles(c.Files, ""), c08CoqHeads(obs.Heads), o)
+		return fmt.Sprintf("CSort %s %s %s %s", hx.CoqBool(c.Uninstall), c08CoqFiles(obs.Heads, c.Files, ""), c08CoqHeads(obs.Heads), o)
 	case "render":
 		o := "ORenderErr"
 		if obs.Err == "" && obs.Panic == "" {
-			o = fmt.Sprintf("(ORenderOk %s %s)", hooks(), c08Str(string(obs.Manifest)))
+			if ps, ok := c08Pieces(obs.Heads, obs.Manifest); ok {
+				o = fmt.Sprintf("(ORenderOk %s %s)", hooks(), ps)
+			} else {
+				o = fmt.Sprintf("(ORenderRaw %s %s)", hooks(), c08Str(string(obs.Manifest)))
+			}
 		}
 		// the template engine does not emit partials; every other template is a key of the rendered map
 		var fs []c08File
@@ -265,7 +342,7 @@ func (*c08) CoqCase(ci, oi any) string {
 				fs = append(fs, f)
 			}
 		}
-		return fmt.Sprintf("CRender %s %s %s", c08CoqFiles(fs, c08ChartName+"/"), c08CoqHeads(obs.Heads), o)
+		return fmt.Sprintf("CRender %s %s %s", c08CoqFiles(obs.Heads, fs, c08ChartName+"/"), c08CoqHeads(obs.Heads), o)
 	case "barrier":
 		evs := make([]string, len(obs.Events))
 		for i, e := range obs.Events {
@@ -379,12 +456,12 @@ func (p *c08) Generate(r *rand.Rand, i int) any {
 }
 
 // ---- string printing ---------------------------------------------------------------
-// Multi-line documents are printed as Coq string literals with the line feeds inside the
-// literal (parsing a (bs [..]) byte list costs two orders of magnitude more); bytes outside
-// printable ASCII and LF go through bs, pieces are joined with ++.
+// Documents are printed as Coq string literals with every byte verbatim inside the literal
+// (parsing a (bs [..]) byte list costs two orders of magnitude more); only NUL goes through
+// bs, pieces are joined with ++.
 
 func c08Str(s string) string {
-	safe := func(c byte) bool { return c == '\n' || (c >= 0x20 && c <= 0x7e) }
+	safe := func(c byte) bool { return c != 0 } // coqc reads any other byte inside a literal verbatim (checked: CR, VT, invalid UTF-8)
 	var pieces []string
 	for i := 0; i < len(s); {
 		j := i
